@@ -134,6 +134,14 @@ def run(rep, drv):
 				r3, Q3 = rq.r_q_eoqb_approximation(h, p, K, lam, sd, L)
 				if abs(Q3 - math.sqrt(2 * K * lam * (h + p) / (h * p))) > 1e-9 * Q3 or abs(g(r3) - g(r3 + Q3)) > 1e-5:
 					bad.append('EOQB approximation wrong')
+				# loss-function approximation: Q = sqrt(2[K lambda + (h+p) n2(r)]/h), n(r) = hQ/(h+p), with n, n2 the normal first/second-order losses
+				r4, Q4 = rq.r_q_loss_function_approximation(h, p, K, lam, sd, L)
+				z4 = (r4 - mu) / sigma
+				n1_4 = sigma * (norm.pdf(z4) - z4 * (1 - norm.cdf(z4)))
+				n2_4 = 0.5 * sigma ** 2 * ((z4 * z4 + 1) * (1 - norm.cdf(z4)) - z4 * norm.pdf(z4))
+				if abs(n1_4 - h * Q4 / (h + p)) > 1e-4 * max(1, n1_4) or abs(Q4 - math.sqrt(2 * (K * lam + (h + p) * n2_4) / h)) > 1e-4 * max(1, Q4):
+					bad.append('loss-function approximation (r=%r, Q=%r) does not satisfy its defining equations: n(r)=%r vs hQ/(h+p)=%r; Q vs %r' % (
+						r4, Q4, n1_4, h * Q4 / (h + p), math.sqrt(2 * (K * lam + (h + p) * n2_4) / h)))
 		except Exception as e:
 			import traceback
 			bad.append('raised %s %s' % (err_enum(e), traceback.format_exc()[-200:]))
